@@ -160,6 +160,9 @@ func validOracle(in []byte) (want, oracleOK, nontrivial bool) {
 // CheckC01: Valid(in, buf) equals the reference verdict for buf nil / fresh / previously
 // used (primed deterministically, then used on the case's prior Steps).
 func CheckC01(c *core.Case) error {
+	if c.Kind == "cold" {
+		return checkCold(c)
+	}
 	in := inputOf(c)
 	want, ok, _ := validOracle(in)
 	if !ok {
